@@ -1014,7 +1014,10 @@ class C14(Prop):
                 except ValueError:
                     return "option %d: real option holds %r" % (i, s)
                 t = typed[1:]
-                y = 0.0 if t == "0" else float(t)
+                try:
+                    y = 0.0 if t == "0" else float(t)
+                except ValueError:
+                    return "option %d: GetReal returned %s (not a finite number) for stored value %r" % (i, t, s)
                 if not (x == y or abs(x - y) <= 1e-12 * max(abs(x), abs(y))):
                     return "option %d: GetReal %s for value %r" % (i, typed, s)
         return None
